@@ -3,3 +3,9 @@ module crdverif/extract
 go 1.24.0
 
 require gopkg.in/yaml.v3 v3.0.1
+
+require (
+	golang.org/x/mod v0.22.0 // indirect
+	golang.org/x/sync v0.10.0 // indirect
+	golang.org/x/tools v0.29.0
+)
